@@ -26,15 +26,25 @@ CELLS += sorted(h3.h3_to_children(_c, 15))[:2]
 
 
 def build(rnd):
-    env = mock_env().set_reporter(Rep())
+    mixed = rnd.random() < 0.5          # half of the scenarios: electric and gasoline vehicles / plugs side by side
+    pump = mock_gasoline_pump()
+    if mixed:
+        bev_, ice_ = mock_bev(), mock_ice()
+        env = mock_env(mechatronics={bev_.mechatronics_id: bev_, ice_.mechatronics_id: ice_},
+                       chargers={mock_dcfc_charger_id(): mock_dcfc_charger(), mock_l2_charger_id(): mock_l2_charger(), pump.id: pump}).set_reporter(Rep())
+    else:
+        env = mock_env().set_reporter(Rep())
     stations, bases = [], []
     for i in range(2):
         g = rnd.choice(CELLS)
-        stations.append(mock_station_from_geoid(station_id=f"s{i}", geoid=g,
-                                                chargers=immutables.Map({mock_dcfc_charger_id(): rnd.choice([1, 2]), mock_l2_charger_id(): 1})))
+        ch = {mock_dcfc_charger_id(): rnd.choice([1, 2]), mock_l2_charger_id(): 1}
+        if mixed:
+            ch[pump.id] = 1
+        stations.append(mock_station_from_geoid(station_id=f"s{i}", geoid=g, chargers=immutables.Map(ch), env=env))
         bases.append(mock_base_from_geoid(base_id=f"b{i}", geoid=g, station_id=f"s{i}" if rnd.random() < 0.7 else None,
                                           stall_count=rnd.choice([1, 2])))
-    vehicles = [mock_vehicle_from_geoid(vehicle_id=f"v{i}", geoid=rnd.choice(CELLS), soc=rnd.choice([0.0005, 0.3, 0.6, 1.0]))
+    vehicles = [mock_vehicle_from_geoid(vehicle_id=f"v{i}", geoid=rnd.choice(CELLS), soc=rnd.choice([0.0005, 0.3, 0.6, 1.0]),
+                                        **({"mechatronics": ice_} if mixed and i == 2 else {}))
                 for i in range(3)]
     sim = mock_sim(vehicles=tuple(vehicles), stations=tuple(stations), bases=tuple(bases), sim_time=SimTime(600),
                    sim_timestep_duration_seconds=rnd.choice([1, 7, 60]))
@@ -49,6 +59,8 @@ def random_instruction(rnd, sim):
     s = rnd.choice(sorted(sim.stations))
     b = rnd.choice(sorted(sim.bases))
     c = rnd.choice([mock_dcfc_charger_id(), mock_l2_charger_id()])
+    if "gas_pump" in sim.stations[s].state and rnd.random() < 0.5:
+        c = "gas_pump"
     reqs = sorted(sim.requests)
     choices = [IdleInstruction(v), DispatchStationInstruction(v, s, c), ChargeStationInstruction(v, s, c), ChargeBaseInstruction(v, b, c),
                DispatchBaseInstruction(v, b), ReserveBaseInstruction(v, b), OutOfServiceInstruction(v)]
@@ -179,7 +191,7 @@ def sim_fp(sim):
     return freeze(sim._replace(road_network=None))
 
 
-ORACLES = {"C02": check_C02, "C07": check_C07, "C08": check_C08, "C17": check_C17, "C10": check_C10, "C09": check_C02,
+ORACLES = {"C03": (lambda sim: None), "C02": check_C02, "C07": check_C07, "C08": check_C08, "C17": check_C17, "C10": check_C10, "C09": check_C02,
            "C05": check_C05}
 
 
@@ -194,6 +206,11 @@ def scenario(pid, seed):
             ins = random_instruction(rnd, sim)
             before = sim
             sim = apply_instructions(sim, env, (ins,))
+            if pid == "C03":
+                vb, va = before.vehicles[ins.vehicle_id], sim.vehicles[ins.vehicle_id]
+                if name(vb) == "ServicingTrip" and len(vb.vehicle_state.route) > 0 and name(va) != "ServicingTrip":
+                    trace.append(f"apply {ins.__class__.__name__}({ins.vehicle_id})")
+                    return f"{vb.id} carrying request {vb.vehicle_state.request.id} was diverted into {name(va)} by {ins.__class__.__name__}", trace
             trace.append(f"apply {ins.__class__.__name__}({ins.vehicle_id})")
             if pid == "C09":
                 vid = ins.vehicle_id
